@@ -362,3 +362,36 @@ def blocked_to_dense(ctx):
                     ok = it_ok and el_ok
                     why = "row %s: columns over `%s` (expected range(self._ndims[1])), element `%s` (expected block [%s, %s].to_dense())" % (I, unparse(rowdef.generators[0].iter), unparse(rowdef.elt), I, J)
     r.check(ok, "BlockedDiscreteOperator.to_dense", BL, "BlockedDiscreteOperator.to_dense", fn.lineno, "blocked to_dense layout", why)
+
+
+def zero_operator(ctx):
+    """C14: the zero boundary operator is the neutral element of the in-place sums a blocked operator uses for its empty
+    blocks (`blocked[i, j] += A`, `blocked[i, j] -= A` hand a fresh ZeroBoundaryOperator to `__iadd__` / `__isub__`):
+    0 + A is A, 0 - A is -A, for compatible spaces; incompatible spaces raise."""
+    from .proto import NCEval
+
+    BOP = "bempp_cl/api/assembly/boundary_operator.py"
+    m = ctx.repo.mod(BOP)
+    r = ctx.rule("ZERO-OPERATOR", "ZeroBoundaryOperator: `Z += A` denotes A and `Z -= A` denotes -A for compatible spaces (the empty blocks of a blocked operator are filled through them); incompatible spaces are rejected", 4)
+    Bt = NC.op("B")
+    for meth, want in (("__iadd__", Bt), ("__isub__", NC.const(-1) * Bt)):
+        fn = m.fn("ZeroBoundaryOperator." + meth)
+        o = arg_names(fn)[1]
+        same = {"self.domain": "d", "%s.domain" % o: "d", "self.range": "r", "%s.range" % o: "r", "self.dual_to_range": "t", "%s.dual_to_range" % o: "t",
+                "self._domain": "d", "self._range": "r", "self._dual_to_range": "t"}
+        kind, node = dispatch.select(fn, same)
+        ok, msg = False, "%s raises or returns nothing for compatible spaces" % meth
+        if kind == "return" and node is not None:
+            got = NCEval({o: Bt}).ev(node)  # (an expression the algebra cannot read: cannot analyse)
+            ok, msg = got == want, "ZeroBoundaryOperator.%s returns `%s`, which denotes %r; 0 %s A is %r" % (meth, unparse(node)[:40], got, "+" if meth == "__iadd__" else "-", want)
+        r.check(ok, meth + " (compatible spaces)", BOP, "ZeroBoundaryOperator." + meth, fn.lineno, "ZeroBoundaryOperator." + meth, msg)
+        for which in ("domain", "range", "dual_to_range"):
+            env = dict(same)
+            env["%s.%s" % (o, which)] = "other"
+            try:
+                kind2, _ = dispatch.select(fn, env)
+            except AnalysisError:
+                kind2 = "?"
+            if which == "domain":
+                r.check(kind2 == "raise", meth + " (different domain)", BOP, "ZeroBoundaryOperator." + meth, fn.lineno, "ZeroBoundaryOperator.%s guard" % meth,
+                        "an operand with a different domain space is not rejected by %s" % meth)
